@@ -73,6 +73,23 @@ FAMILIES = {
 }
 
 
+def clash_variant(js):
+    """A valid schema defining the same names differently: enum symbols reversed, fixed one byte longer, records with an
+    extra defaulted field (definitions stay in place, so every by-name reference still follows its definition)."""
+    if isinstance(js, list):
+        return [clash_variant(b) for b in js]
+    if isinstance(js, dict):
+        out = {k: (clash_variant(v) if k in ("type", "items", "values") and not isinstance(v, str) else v) for k, v in js.items()}
+        if js.get("type") == "enum":
+            out["symbols"] = list(reversed(js["symbols"]))
+        if js.get("type") == "fixed":
+            out["size"] = js["size"] + 1
+        if js.get("type") == "record":
+            out["fields"] = [dict(f, type=clash_variant(f["type"])) for f in js["fields"]] + [{"name": "clash_extra", "type": "int", "default": 0}]
+        return out
+    return js
+
+
 class C07(Check):
     pid = "C07"
     level = "exploration"
@@ -89,7 +106,7 @@ class C07(Check):
         "a successful one, write_block with pending records, append after an empty flush, or >=2 reopenings."
     )
     assumptions = ["a reopen is preceded by a flush (records never flushed before the writer is dropped are not 'submitted so far' at any flush)"]
-    required_labels = ["failed-then-success", "write_block-with-pending", "reopens>=2", "append-after-empty-flush", "family:empty", "family:rec", "family:flt", "family:nest", "reopen:position-after-reader", "reopen:position-in-the-middle", "stream:file", "validator:on", "validator:off", "auto-dump", "metadata-dict-reused", "block:iterated", "block:twice"]
+    required_labels = ["failed-then-success", "write_block-with-pending", "reopens>=2", "append-after-empty-flush", "family:empty", "family:rec", "family:flt", "family:nest", "reopen:position-after-reader", "reopen:position-in-the-middle", "reopen:schema-redefining-the-same-names", "stream:file", "validator:on", "validator:off", "auto-dump", "metadata-dict-reused", "block:iterated", "block:twice"]
     quick = (1200, 1)
     thorough = (1500, 16)
 
@@ -137,7 +154,7 @@ class C07(Check):
                     ops.append(["block", d.i(len(donors)), d.i(8), d.choice(["fresh", "fresh", "iterated", "twice", "peeked"])])
                 else:
                     args = {
-                        "schema": d.choice(["none", "same", "different"]),
+                        "schema": d.choice(["clash", "none", "same", "different"]),
                         "codec": d.choice(codecs),
                         "marker": d.choice([None, b"\x09" * 16]),
                         "metadata": d.choice([None, {"late": "meta"}]),
@@ -353,7 +370,11 @@ class C07(Check):
                 submitted_since_flush = 0
                 pending = 0
                 check("flush-before-reopen")
-                sch = {"none": None, "same": schema, "different": OTHER}[args["schema"]]
+                # "clash": the same type names with other definitions (enum symbols reversed, other field order): the file's
+                # own schema governs what is appended
+                sch = {"none": None, "same": schema, "different": OTHER, "clash": clash_variant(js)}[args["schema"]]
+                if args["schema"] == "clash":
+                    labels.add("reopen:schema-redefining-the-same-names")
                 kw = dict(codec=args["codec"], sync_interval=args["sync_interval"], validator=args["validator"])
                 if args["metadata"] is not None:
                     kw["metadata"] = dict(args["metadata"])
